@@ -261,3 +261,13 @@ def witness_transfer(xs, ys):
     # round 4 (C03 #6): carrier of a `same-witnesses:` hint
     z = 0
     return z
+
+
+def two_types(xs):
+    # round 4: one local name, two types; the second assignment is declared as "r@L<line>"
+    r = []
+    for x in xs:
+        r.append(x)
+    n = len(r)
+    r = {k: [] for k in xs}
+    return n + len(r)
